@@ -103,7 +103,7 @@ Proof.
   all: try (destruct (I _ X) as [A | (A & B)]; [congruence | right; split; assumption]).
   all: destruct (I _ X) as [A | (A & B)]; [left; assumption | right; split; [assumption |]].
   all: intros Q; inversion Q; subst.
-  all: match goal with E : act _ ?n = ASubmit _ _ |- _ => destruct (AA n) as [Y | (i1 & l1 & Y)]; [rewrite E; discriminate | congruence | unfold wpc_of in Y; congruence] end.
+  all: match goal with E : act _ ?n = ASubmit _ _ |- _ => destruct (AA n) as [Y | [(i1 & l1 & Y) | (Y & _)]]; [rewrite E; discriminate | congruence | unfold wpc_of in Y; congruence | congruence] end.
 Qed.
 
 Definition hook_after (s : state) (l : label) (t0 : nat) : mhook :=
@@ -195,15 +195,18 @@ Qed.
 
 (* ---------- states in which no item can be in flight ---------- *)
 Lemma all_idle : forall s, AAct s -> SI s ->
-  (forall w, wpc_of s w = WNone \/ wpc_of s w = WDead) -> act s (own s) = ANone -> otopb s = true ->
+  (forall w, wpc_of s w = WNone \/ wpc_of s w = WDead) ->
+  (forall t, tk (th s t) = KHelper -> tp (th s t) = TFin \/ tp (th s t) = TJoined) ->
+  act s (own s) = ANone -> otopb s = true ->
   lq s = [] -> lbatch s = [] -> pitems_of s = [] -> pdone_of s = [] ->
   forall i, items s i = IIdle.
 Proof.
-  intros s AA I DW AO OT LQ LB PI PD i. specialize (I i). destruct (items s i) eqn:IT; auto; exfalso.
+  intros s AA I DW HD AO OT LQ LB PI PD i. specialize (I i). destruct (items s i) eqn:IT; auto; exfalso.
   - destruct I as [X | [(t & X) | (w & l & X)]].
     + rewrite PI in X. destruct X.
-    + destruct (AA t) as [Y | (i1 & l1 & Y)]; [rewrite X; discriminate | subst; congruence |].
-      destruct (DW t); congruence.
+    + destruct (AA t) as [Y | [(i1 & l1 & Y) | (Y & Z)]]; [rewrite X; discriminate | subst; congruence | |].
+      * destruct (DW t); congruence.
+      * destruct (HD t Y) as [Q | Q]; rewrite Q in Z; destruct Z; discriminate.
     + destruct (DW w); congruence.
   - destruct I as (w & l & X). destruct (DW w); congruence.
   - destruct I as [(w & l & X) | [X | (l & X & Y)]].
@@ -226,9 +229,12 @@ Proof.
   assert (AO : act s (own s) = ANone) by (destruct (act s (own s)); auto; discriminate).
   assert (PI : pitems_of s = []).
   { unfold pitems_of. destruct (pl s) as [|p|] eqn:P; auto. destruct (pitems p) eqn:IT; auto. exfalso.
-    destruct (i_w40 p P) as [X | (w & _ & [X | (X & _)])]; [rewrite IT; discriminate | rewrite TD in X; destruct X | |].
+    destruct (i_w40 p P) as [X | [(w & _ & [X | (X & _)]) | ([X | [X | X]] & _)]]; [rewrite IT; discriminate | rewrite TD in X; destruct X | | | | |].
     - destruct (DW w) as [Y | Y]; rewrite Y in X; discriminate.
-    - destruct (DW w); congruence. }
+    - destruct (DW w); congruence.
+    - match goal with A : opend s = [], B : obatch s = [] |- _ => rewrite A, B in X end. destruct X.
+    - match goal with T : otopb s = true |- _ => unfold otopb in T; rewrite X in T; discriminate end.
+    - rewrite TD in X. destruct X. }
   assert (PD : pdone_of s = []).
   { unfold pdone_of. destruct (pl s) as [|p|] eqn:P; auto. destruct (pdone p) eqn:DN; auto. exfalso.
     destruct (i_w50 p P) as (W & _). destruct W as [X | [X | X]]; [rewrite DN; discriminate | | |].
@@ -236,6 +242,10 @@ Proof.
     - match goal with T : otopb s = true |- _ => unfold otopb in T; rewrite X in T; discriminate end.
     - rewrite TD in X. destruct X. }
   split; [| split; auto]. eapply all_idle; eauto.
+  intros t KH. destruct i_tb0 as (_ & _ & T3 & _).
+  assert (IN : In t (tids s)) by (apply T3; rewrite KH; discriminate).
+  match goal with F : forallb _ _ = true |- _ => rewrite forallb_forall in F; specialize (F t IN) end.
+  unfold quiet_thread in *. rewrite KH in *. destruct (tp (th s t)); try discriminate; auto.
 Qed.
 
 Lemma no_pool_workers : forall s, Inv s -> (forall p, pl s <> PLive p) ->
@@ -247,6 +257,14 @@ Proof.
   all: unfold nlive in B; assert (X : In w (filter (fun w => is_live (wpc_of s w)) (wids s))) by
          (apply filter_In; split; auto; rewrite PC; reflexivity).
   all: destruct (filter (fun w => is_live (wpc_of s w)) (wids s)); [destruct X | discriminate B].
+Qed.
+
+Lemma cntU_zero : forall s n, cntU s = 0%nat -> In n (tids s) -> tp (th s n) = TJoined.
+Proof.
+  unfold cntU. intros s n Z IN.
+  destruct (tp (th s n)) eqn:TP; auto; exfalso.
+  all: assert (X : In n (filter (fun n => unjoined (th s n)) (tids s))) by (apply filter_In; split; auto; unfold unjoined; rewrite TP; reflexivity).
+  all: destruct (filter (fun n => unjoined (th s n)) (tids s)); [destruct X | discriminate Z].
 Qed.
 
 Lemma mainend_state : forall s t s', Inv s -> SI s -> ON s -> step s (LMainEnd t) = Some s' ->
@@ -263,6 +281,7 @@ Proof.
   eapply all_idle; eauto.
   - exact (i_act s IV).
   - now apply no_pool_workers.
+  - intros t0 KH. right. apply cntU_zero; auto. destruct (i_tb s IV) as (_ & _ & T3 & _). apply T3. rewrite KH. discriminate.
   - destruct (act s (own s)); auto; discriminate.
   - unfold pitems_of. destruct (pl s) eqn:P; auto. elim (NP p); auto.
   - unfold pdone_of. destruct (pl s) eqn:P; auto. elim (NP p); auto.
@@ -589,14 +608,6 @@ Proof.
   intros s l s' H. step_inv H; ssimp; ifs; ssimp; auto.
   all: try (apply orb_false_iff in E; destruct E as (_ & E); rewrite ?E; auto; fail).
   all: try (bools; match goal with X : omain _ = _ |- _ => rewrite X; reflexivity end).
-Qed.
-
-Lemma cntU_zero : forall s n, cntU s = 0%nat -> In n (tids s) -> tp (th s n) = TJoined.
-Proof.
-  unfold cntU. intros s n Z IN.
-  destruct (tp (th s n)) eqn:TP; auto; exfalso.
-  all: assert (X : In n (filter (fun n => unjoined (th s n)) (tids s))) by (apply filter_In; split; auto; unfold unjoined; rewrite TP; reflexivity).
-  all: destruct (filter (fun n => unjoined (th s n)) (tids s)); [destruct X | discriminate Z].
 Qed.
 
 Lemma quiescent_joined : forall s, Inv s -> JJ s -> quiescent s = true -> forall n, In n (tids s) -> tp (th s n) = TJoined.
